@@ -1,11 +1,13 @@
 """C16: running the real TrainingStateController under crash injection.
 
-A *scenario* is: parameters (keep_last_and_best_only, two file-name formats, best_is_train), a
-metric history (one (train, val) pair per epoch, on a 3-decimal grid), and a crash schedule
-[(epoch, k, torn), ...]: session i starts a NEW controller on the files left behind, loads the last
-recorded epoch, trains on, and is killed at mutating call number k of the update for `epoch`
-(session i never reaches that point -> it simply completes). After the schedule one more session
-runs to the end.
+A *scenario* is: parameters (keep_last_and_best_only, two file-name formats, best_is_train, optional
+extra TrainingStateParams, a user entry, explicit `epoch=` argument), a metric history (one
+(train, val) pair per epoch, on a 3-decimal grid), and a crash schedule [(epoch, k, torn[, soft]), ...]:
+session i starts a NEW controller on the files left behind, loads the last recorded epoch, trains
+on, and is killed at mutating call number k of the update for `epoch` (session i never reaches that
+point -> it simply completes); `torn`: call k is executed half-way when it is a torch.save or the
+write of a history data row; `soft`: the death is an interrupt that unwinds through the library's
+handlers (c16_fs). After the schedule one more session runs to the end.
 
 "Training" is deterministic so that every state is recognisable: the model holds one float64 `w`,
 the optimizer one integer `tag` in its parameter group; epoch e turns (w, t) into (3w + e, 5t + e).
@@ -63,9 +65,39 @@ def set_state(m, o, w, t):
 
 
 def names(case, n):
-    """File names of epochs 0..n+1 under the two formats (computed here, not by the library)."""
+    """File names of epochs 0..n+1 under the two formats (computed here, not by the library): the
+    formats may use {epoch}, {train_met}, {val_met}. Epoch 0 is the controller's dummy entry (both
+    metrics inf); epoch n+1 is never written (a name of its own)."""
     mf, of = case["model_fmt"], case["optim_fmt"]
-    return [mf.format(epoch=e) for e in range(n + 2)], [of.format(epoch=e) for e in range(n + 2)]
+    inf = float("inf")
+    infos = [{"epoch": 0, "train_met": inf, "val_met": inf}]
+    for e in range(1, n + 1):
+        tm, vm = case["vals"][e - 1]
+        infos.append({"epoch": e, "train_met": tm / 1000.0, "val_met": vm / 1000.0 if vm is not None else inf})
+    infos.append({"epoch": n + 1, "train_met": -1.0 - n, "val_met": -1.0 - n})
+    return [mf.format(**i) for i in infos], [of.format(**i) for i in infos]
+
+
+def line_kinds(text):
+    """History text -> one entry per line: "header" | epoch (int) | "torn" (unterminated last line) |
+    "junk" (anything else). A data row has as many fields as the first line."""
+    out = []
+    nf = None
+    for line in text.splitlines(keepends=True):
+        body = line.rstrip("\r\n")
+        fields = body.split(",")
+        if nf is None:
+            nf = len(fields)
+        if body == line:
+            out.append("torn")
+        elif fields[0] == "epoch":
+            out.append("header")
+        else:
+            try:
+                out.append(int(fields[0]) if len(fields) == nf else "junk")
+            except ValueError:
+                out.append("junk")
+    return out
 
 
 def keys_of(nm):
@@ -140,12 +172,9 @@ def snapshot(case, n, state_dir, csv_path):
                 other.append(f)
     csv = None
     if os.path.exists(csv_path):
-        with open(csv_path) as f:
+        with open(csv_path, newline="") as f:
             text = f.read()
-        csv = []
-        for line in text.splitlines():
-            first = line.split(",")[0]
-            csv.append("header" if first == "epoch" else int(first))
+        csv = line_kinds(text)
     return {"files": sorted(files), "tmps": sorted(tmps, key=repr), "other": other, "csv": csv}
 
 
@@ -185,12 +214,9 @@ def abstract_trace(case, n, state_dir, csv_path, ops):
             out.append(["remove"] + pth(op[1]))
         elif kind == "open_a":
             out.append(["open_a"])
-        elif kind == "flush":
-            ls = []
-            for line in op[2].splitlines():
-                first = line.split(",")[0]
-                ls.append("header" if first == "epoch" else int(first))
-            out.append(["flush", ls])
+        elif kind == "hwrite":
+            ls = line_kinds(op[2])
+            out.append(["hwrite", ls[0]] if len(ls) == 1 else ["hwrite", ls])
         else:
             out.append(["?"] + [str(x) for x in op])
     return out
@@ -200,10 +226,13 @@ _BASE = [None]
 
 
 def _base_dir():
-    """One directory under /tmp per harness process (removed at exit); workspaces live inside."""
+    """One directory per harness process (removed at exit); workspaces live inside. On /dev/shm when
+    there is one (the crashes are simulated, nothing needs a real disk, and file-system calls are
+    several times faster there), else under /tmp."""
     import atexit
     if _BASE[0] is None or not os.path.isdir(_BASE[0]):
-        _BASE[0] = tempfile.mkdtemp(prefix="c16_", dir="/tmp")
+        root = "/dev/shm" if os.path.isdir("/dev/shm") and os.access("/dev/shm", os.W_OK) else "/tmp"
+        _BASE[0] = tempfile.mkdtemp(prefix="c16_", dir=root)
         atexit.register(shutil.rmtree, _BASE[0], True)
     return _BASE[0]
 
@@ -240,8 +269,15 @@ class Workspace:
         self.close()
 
 
+USER_ENTRY = "note"
+
+
+def user_value(e):
+    return 7 * e + 1
+
+
 def session(case, ws, crash=None, record=None):
-    """One process lifetime. crash = (epoch, k, torn) or None. Returns dict describing what happened.
+    """One process lifetime. crash = (epoch, k, torn[, soft]) or None. Returns dict describing what happened.
     `record`, when given, receives per-epoch traces of completed updates (epoch -> abstract trace) and
     a disk snapshot after every completed update."""
     import warnings
@@ -259,6 +295,12 @@ def session(case, ws, crash=None, record=None):
                 return out
             m, o = fresh_model_opt()
             try:
+                if case.get("user_entry"):
+                    ctrl.add_entry(USER_ENTRY, int)     # re-reads the history with the extra column
+            except Exception as e:
+                out["init_error"] = type(e).__name__
+                return out
+            try:
                 ctrl.load_model_and_optimizer_for_epoch(m, o)
             except Exception as e:
                 out["load_error"] = type(e).__name__
@@ -272,12 +314,17 @@ def session(case, ws, crash=None, record=None):
                 set_state(m, o, w, t)
                 tm, vm = vals[e - 1]
                 if crash is not None and crash[0] == e:
-                    tr.arm(crash[1], bool(crash[2]))
+                    tr.arm(crash[1], bool(crash[2]), bool(crash[3]) if len(crash) > 3 else False)
                 else:
                     tr.arm(None)
+                kw = {}
+                if case.get("user_entry"):
+                    kw[USER_ENTRY] = user_value(e)
+                if case.get("explicit_epoch"):
+                    kw["epoch"] = e
                 try:
                     ctrl.update_for_epoch(m, o, tm / 1000.0, vm / 1000.0 if vm is not None else float("inf"),
-                                          best_is_train=bool(case.get("best_is_train", False)))
+                                          best_is_train=bool(case.get("best_is_train", False)), **kw)
                 except Crash:
                     out["crashed"] = True
                     out["crash_epoch"] = e
@@ -302,6 +349,10 @@ def session(case, ws, crash=None, record=None):
             out["final_state"] = list(get_state(m, o))
     if tr.unexpected:
         out["unexpected_mutators"] = sorted(set(tr.unexpected))
+    if tr.idle:
+        out["idle_ops"] = [op[:1] + [os.path.basename(x) for x in op[1:]] for op in tr.idle[:6]]
+    if tr.after:
+        out["after_ops"] = [op[:1] + [os.path.basename(x) for x in op[1:]] for op in tr.after[:6]]
     return out
 
 
@@ -338,6 +389,12 @@ def recover(case, ws):
         except Exception as e:
             out["load_best_default"] = ["error", type(e).__name__]
         out["best_val"] = ctrl.get_best_epoch()
+        if case.get("user_entry"):
+            try:
+                ctrl.add_entry(USER_ENTRY, int)
+                out["user_vals"] = [ctrl.cache_hist[k].get(USER_ENTRY) for k in rows]
+            except Exception as e:
+                out["user_vals"] = ["error", type(e).__name__]
     return out
 
 
